@@ -31,7 +31,7 @@ func init() {
 				r.Cov["traces_validated_against_impl"] = m.Counts["histories"]
 				r.Cov["evaluations"] = m.Counts["ldap_calls"]
 				r.Cov["distinct_nontrivial"] = len(m.Outc)
-				r.Cov["rule"] = "state = operation history (Add / Modify with one or two changes / Delete / Bind / SetUsers / SetGroups / SetAllowAnonymousBind over a pool of 4 user DNs incl. a case variant and 2 group DNs) of length <= depth, breadth-first; every history is executed on a live testdirectory.Directory through a real go-ldap client, every step's result code is compared with a reference store and after the last step every pool DN is searched in both supported forms and every pool user is bound with its right password, a wrong one and the empty one. distinct_nontrivial = distinct (operation kinds, outcome) classes"
+				r.Cov["rule"] = "state = operation history (Add / Modify with one or two changes / Delete / Bind / SetUsers / SetGroups / SetAllowAnonymousBind over a pool of 5 user DNs incl. a case variant and a non-ASCII one, 2 group DNs, 4 user sets incl. users without a usable password and entries sharing one value slice (testdirectory.NewUsers with WithMembersOf)) of length <= depth, breadth-first; every history is executed on a live testdirectory.Directory through a real go-ldap client, every step's result code is compared with a reference store and after the last step every pool DN is searched in both supported forms and every pool user is bound with its right password, a wrong one and the empty one. distinct_nontrivial = distinct (operation kinds, outcome) classes"
 				r.Cov["samples"] = m.Samp
 				r.Cov["per_family"] = m.Counts
 				r.Cov["depth_completed"] = m.Counts["depth_completed_min"]
@@ -145,9 +145,32 @@ func userSet(n int) []*refEntry {
 		return []*refEntry{mk("alice"), mk("bob")}
 	case 1:
 		return []*refEntry{}
+	case 2:
+		// users without a usable password: no password attribute, a password attribute without values, an empty password
+		return []*refEntry{mk("eve"),
+			{DN: udn("nopw"), Attrs: []codec.Attr{{Type: "name", Vals: []string{"x"}}}},
+			{DN: udn("zerovals"), Attrs: []codec.Attr{{Type: "name", Vals: []string{"z"}}, {Type: "password", Vals: []string{}}}},
+			{DN: udn("emptystr"), Attrs: []codec.Attr{{Type: "name", Vals: []string{"e"}}, {Type: "password", Vals: []string{""}}}}}
 	default:
-		return []*refEntry{mk("eve"), {DN: udn("nopw"), Attrs: []codec.Attr{{Type: "name", Vals: []string{"x"}}}}}
+		// what testdirectory.NewUsers(names, WithMembersOf("admin", "staff")) builds (see sharedUsers): every
+		// entry is handed the same memberOf slice
+		var out []*refEntry
+		for _, n := range sharedNames {
+			out = append(out, &refEntry{DN: udn(n), Attrs: []codec.Attr{{Type: "email", Vals: []string{n + "@example.com"}}, {Type: "memberOf", Vals: []string{"admin", "staff"}}, {Type: "name", Vals: []string{n}}, {Type: "password", Vals: []string{"password"}}}})
+		}
+		return out
 	}
+}
+
+var sharedNames = []string{"alice", "bob", "eve"}
+
+// liveUsers builds the gldap entries of user set n. Set 3 comes from the library's own helper, whose entries
+// share one value slice for memberOf.
+func liveUsers(t testdirectory.TestingT, n int) []*gldap.Entry {
+	if n == 3 {
+		return testdirectory.NewUsers(t, sharedNames, testdirectory.WithMembersOf(t, "admin", "staff"))
+	}
+	return toEntries(userSet(n))
 }
 
 func groupSet(n int) []*refEntry {
@@ -376,7 +399,7 @@ func (e *dirEnv) exec(c *Ctx, o dirOp) int {
 		_, err := e.conn.SimpleBind(&ldap.SimpleBindRequest{Username: o.DN, Password: o.PW, AllowEmptyPassword: true})
 		return codeOf(err)
 	case "setusers":
-		e.d.SetUsers(toEntries(userSet(o.Set))...)
+		e.d.SetUsers(liveUsers(e.t, o.Set)...)
 	case "setgroups":
 		e.d.SetGroups(toEntries(groupSet(o.Set))...)
 	case "setanon":
@@ -425,7 +448,7 @@ func names(m map[string][]string) []string {
 	return o
 }
 
-var poolUsers = []string{udn("alice"), udn("bob"), udn("eve"), udn("Alice")}
+var poolUsers = []string{udn("alice"), udn("bob"), udn("eve"), udn("Alice"), udn("zo\u00eb")}
 var poolGroups = []string{gdn("admin"), gdn("dev")}
 
 // probe compares everything observable with the reference store. Returns findings as (prop, key, detail).
@@ -481,7 +504,7 @@ func (e *dirEnv) probe(c *Ctx, s *refStore) [][3]string {
 		check("group base + filter", dn, want, ents, code)
 	}
 	// binds
-	for _, dn := range append(append([]string{}, poolUsers...), "", udn("nobody"), strings.ToUpper(udn("bob"))) {
+	for _, dn := range append(append([]string{}, poolUsers...), "", udn("nobody"), strings.ToUpper(udn("bob")), udn("nopw"), udn("zerovals"), udn("emptystr")) {
 		pws := []string{"", "wrong"}
 		if i := s.findUser(dn); i >= 0 {
 			if ai := firstAttr(s.Users[i], "password"); ai >= 0 && len(s.Users[i].Attrs[ai].Vals) > 0 {
@@ -582,6 +605,7 @@ func dirAlphabet(thorough bool) []dirOp {
 		{{Op: 1, Type: "email"}},
 		{{Op: 1, Type: "nonexistent"}},
 		{{Op: 2, Type: "email", Vals: []string{"new@x", "new2@x"}}},
+		{{Op: 2, Type: "memberOf", Vals: []string{"ops"}}},
 	}
 	double := [][]codec.Change{
 		{{Op: 1, Type: "email"}, {Op: 2, Type: "name", Vals: []string{"renamed"}}},
@@ -598,7 +622,7 @@ func dirAlphabet(thorough bool) []dirOp {
 			ops = append(ops, dirOp{Kind: "modify", DN: dn, Changes: ch})
 		}
 	}
-	for i := 0; i < 3; i++ {
+	for i := 0; i < 4; i++ {
 		ops = append(ops, dirOp{Kind: "setusers", Set: i})
 	}
 	for i := 0; i < 2; i++ {
